@@ -209,7 +209,8 @@ class SpecDB:
             r, c = z3.Int(fresh_name(name + "_rows")), z3.Int(fresh_name(name + "_cols"))
             st.assume(z3.And(r >= 0, c >= 0))
             Fn = z3.Function(fresh_name(name), z3.IntSort(), z3.IntSort(), z3.RealSort())
-            return st.alloc(Seq2Val("real", r, c, lambda a, b: Num(Fn(a, b), "real")))
+            Nn = z3.Function(fresh_name(name + "_isnan"), z3.IntSort(), z3.IntSort(), z3.BoolSort())
+            return st.alloc(Seq2Val("real", r, c, lambda a, b: Num(Fn(a, b), "real"), lambda a, b: Nn(a, b)))
         if tag == "Tuple":
             return TupV([self.make(I, st, x, f"{name}_{i}") for i, x in enumerate(t.args)])
         if tag == "Fn":
@@ -302,12 +303,10 @@ class SpecDB:
                 self.havoc_reachable(I, st, Ref(o.base))
             elif isinstance(o, ObjVal):
                 shape = self.classes.get(o.cls)
-                flds = {}
-                for k, x in o.fields.items():
-                    if shape and k in shape.fields:
-                        flds[k] = self.make(I, st, shape.fields[k], k)
-                    else:
-                        flds[k] = x
+                flds = dict(o.fields)
+                if shape:
+                    for k, ft in shape.fields.items():
+                        flds[k] = self.make(I, st, ft, k)
                 st.heap[v.id] = ObjVal(o.cls, flds)
 
     # ------------------------------------------------------------ misc hooks used by library models
@@ -497,25 +496,40 @@ class Pure:
         return self.index(v, self.ev(sl, env))
 
     def quant(self, node, env, kind):
-        rng, lam = node.args
-        if not (isinstance(rng, ast.Call) and isinstance(rng.func, ast.Name) and rng.func.id == "range"):
-            raise EngineError("spec: forall/exists need range(...)")
-        bounds = [to_int(self.ev(a, env)) for a in rng.args]
-        lo, hi = (z3.IntVal(0), bounds[0]) if len(bounds) == 1 else bounds[:2]
-        if not isinstance(lam, ast.Lambda) or len(lam.args.args) != 1:
-            raise EngineError("spec: quantifier body must be a one-argument lambda")
-        vn = lam.args.args[0].arg
-        clo, chi = conc_int(lo), conc_int(hi)
-        if clo is not None and chi is not None and chi - clo <= 6:
-            parts = [self.as_bool(self.ev(lam.body, dict(env, **{vn: IntN(k)}))) for k in range(clo, chi)]
-            if kind == "forall":
-                return Num(z3.And(*parts) if parts else z3.BoolVal(True), "bool")
-            return Num(z3.Or(*parts) if parts else z3.BoolVal(False), "bool")
-        x = z3.Int(fresh_name(vn))
-        body = self.as_bool(self.ev(lam.body, dict(env, **{vn: Num(x, "int")})))
+        """forall/exists(range(..), lambda v: body); directly nested quantifiers of the same kind are merged into one
+        z3 quantifier (better triggers: the body's array reads mention all bound variables)"""
+        vars_, guards = [], []
+        cur, cenv = node, dict(env)
+        concrete_parts = None
+        while True:
+            rng, lam = cur.args
+            if not (isinstance(rng, ast.Call) and isinstance(rng.func, ast.Name) and rng.func.id == "range"):
+                raise EngineError("spec: forall/exists need range(...)")
+            bounds = [to_int(self.ev(a, cenv)) for a in rng.args]
+            lo, hi = (z3.IntVal(0), bounds[0]) if len(bounds) == 1 else bounds[:2]
+            if not isinstance(lam, ast.Lambda) or len(lam.args.args) != 1:
+                raise EngineError("spec: quantifier body must be a one-argument lambda")
+            vn = lam.args.args[0].arg
+            clo, chi = conc_int(lo), conc_int(hi)
+            if clo is not None and chi is not None and chi - clo <= 6 and not vars_:
+                parts = [self.as_bool(self.ev(lam.body, dict(cenv, **{vn: IntN(k)}))) for k in range(clo, chi)]
+                if kind == "forall":
+                    return Num(z3.And(*parts) if parts else z3.BoolVal(True), "bool")
+                return Num(z3.Or(*parts) if parts else z3.BoolVal(False), "bool")
+            x = z3.Int(fresh_name(vn))
+            vars_.append(x)
+            guards.append(z3.And(x >= lo, x < hi))
+            cenv[vn] = Num(x, "int")
+            b = lam.body
+            if isinstance(b, ast.Call) and isinstance(b.func, ast.Name) and b.func.id == kind and len(b.args) == 2:
+                cur = b
+                continue
+            body = self.as_bool(self.ev(b, cenv))
+            break
+        g = z3.And(*guards) if len(guards) > 1 else guards[0]
         if kind == "forall":
-            return Num(z3.ForAll([x], z3.Implies(z3.And(x >= lo, x < hi), body)), "bool")
-        return Num(z3.Exists([x], z3.And(x >= lo, x < hi, body)), "bool")
+            return Num(z3.ForAll(vars_, z3.Implies(g, body)), "bool")
+        return Num(z3.Exists(vars_, z3.And(g, body)), "bool")
 
     def p_Call(self, node, env):
         f = node.func
@@ -538,6 +552,22 @@ class Pure:
                 self.I.need_sum = True
                 return Num(SUM(A, lo, hi), "real")
             args = [self.ev(a, env) for a in node.args]
+            if name in env and isinstance(env[name], FunV):
+                fv = env[name]
+                if fv.kind == "uninterp":
+                    return Num(fv.fn(*[to_real(a) for a in args]), "real")
+                if fv.kind == "lambda":
+                    tmp = self.I.fork(self.st)
+                    self.I.dry += 1
+                    try:
+                        outs = self.I.call_lambda(tmp, fv, args, {}, node)
+                    finally:
+                        self.I.dry -= 1
+                    outs = [(a, b) for a, b in outs if not isinstance(b, Exc)]
+                    if len(outs) != 1:
+                        raise EngineError("spec: function argument is not a simple expression lambda")
+                    return outs[0][1]
+                raise EngineError(f"spec: cannot apply {fv}")
             if name == "len":
                 v = args[0]
                 if isinstance(v, L.RSeq):
@@ -577,6 +607,8 @@ class Pure:
                 return Num(trunc_real(to_real(args[0])), "int")
             if name == "float":
                 return Num(to_real(args[0]), "real")
+            if name == "is_tuple":
+                return BoolN(isinstance(args[0], TupV))
             if name == "is_none":
                 v = args[0]
                 return Num(v.isnone if isinstance(v, OptV) else z3.BoolVal(isinstance(v, NoneV)), "bool")
@@ -736,18 +768,21 @@ def finish_return(db, I, c, s, env, pre_env, retv, tag):
     I.canary(s, "canary-return", wh)
     for exc, name in c.raises.items():
         cond = db.eval_clause(I, s, db.clause(c, name), pre_env)
-        I.oblige(s, z3.Not(cond), "raises-if", f"{exc}:{name}", wh)
+        I.oblige(s, z3.Not(cond), "raises-if", f"{exc}:{name}", wh, assume=False)
     now_env = {k: freeze(I, v, s.heap) for k, v in env.items()}
     e = dict(pre_env)
     e["result"] = freeze(I, retv, s.heap)
     now_env["result"] = e["result"]
+    for name in c.hints.get(("return", "head"), []):
+        cl = db.clause(c, name)
+        I.oblige(s, db.eval_clause(I, s, cl, e, env_now=now_env), "hint", name, wh)
     for name in c.ensures:
         cl = db.clause(c, name)
         g = db.eval_clause(I, s, cl, e, env_now=now_env)
-        I.oblige(s, g, "ensures", name, wh)
+        I.oblige(s, g, "ensures", name, wh, assume=False)
     if not c.opts.get("no_frame"):
         for path, g in frame_goals(db, I, c, s, env):
-            I.oblige(s, g, "frame", path, wh)
+            I.oblige(s, g, "frame", path, wh, assume=False)
     if c.opts.get("class_invariant_exit", True):
         for p, v in env.items():
             if p in c.modifies:
